@@ -12,6 +12,9 @@ import glob
 for f in sorted(glob.glob(V + "/tools/manifest.d/*.py")):
     exec(open(f).read())
 props = [json.loads(l)["id"] for l in open(V + "/properties.jsonl")]
+# only checks that have been reviewed and run green on the unchanged tree are registered
+ACCEPTED = set(open(V + "/tools/accepted.txt").read().split())
+CHECKS = {k: v for k, v in CHECKS.items() if k in ACCEPTED}
 NA = NOT_APPLICABLE
 man = dict(version=1,
   setup_cmd="sh tools/setup.sh",
